@@ -102,7 +102,7 @@ def c11(tier, seed):
     ops = BASE + CONV + ["Borrow", "BorCopy", "Enter", "Exit"]
     return [lay("C11", tier, "layout_matrix_" + tier[0]),
             sized("C11", tier, "sized_raw_" + tier[0], ops, 3 if tier == "quick" else 4, 2, 1),
-            slices("C11", tier, "slices_raw_" + tier[0], 3 if tier == "quick" else 4, 2, 2)]
+            slices("C11", tier, "slices_raw_" + tier[0], 3 if tier == "quick" else 4, 2, 2)] + swaps("C11", tier, seed, hows=("init", "thin"))
 
 
 THIN_MODULES = ["Thin.tla", "MC_Thin.tla"]
@@ -125,21 +125,25 @@ UNINIT_MODULES = ["Uninit.tla", "MC_Uninit.tla"]
 UNINIT_OPS = ["NewUninit", "Write", "ArcWrite", "AsMutSlice", "Clone", "Drop", "Shareable", "TryUnique", "AssumeInit"]
 
 
-def uninit(prop, tier, name, nslots, nblocks, maxlen, simulate=None):
+def uninit(prop, tier, name, nslots, nblocks, maxlen, simulate=None, scale=1):
     cfg = "\n".join(["SPECIFICATION MCSpec", "CONSTANTS", "  NSlots = %d" % nslots, "  NBlocks = %d" % nblocks, "  MaxLen = %d" % maxlen,
                      "  KeepHist = TRUE", "  Ops = %s" % S.tla_set(UNINIT_OPS), "VIEW MCView", "INVARIANT Invariants",
                      "PROPERTY ActionsOK", "ACTION_CONSTRAINT Emit", "CHECK_DEADLOCK FALSE", ""])
-    return stage(S.graph_replay, prop, tier, name, "uninit", "MC_Uninit.tla", UNINIT_MODULES, cfg, nslots, simulate=simulate)
+    return stage(S.graph_replay, prop, tier, name, "uninit", "MC_Uninit.tla", UNINIT_MODULES, cfg, nslots, simulate=simulate, scale=scale)
 
 
 def c15(tier, seed):
     if tier == "quick":
         return [uninit("C15", tier, "uninit_q", 3, 2, 2), uninit("C15", tier, "uninit_walks_q", 5, 4, 4, simulate=(500, 40, seed)),
+                # the same behaviours with long slices: each slot of the specification is 9 (17) consecutive slots
+                uninit("C15", tier, "uninit_long_q", 2, 2, 2, scale=9), uninit("C15", tier, "uninit_long17_q", 2, 1, 2, scale=17),
                 # the deprecated Arc::write / as_mut_slice are uniqueness gates: their load is part of the extracted protocol
-                mm("C15", tier, "mm_deprecated_write_q", [("c15_2x3", ["clone", "read", "drop", "get_mut"], 2, 3, 2, False)])]
+                mm("C15", tier, "mm_deprecated_write_q", [("c15_2x3", ["clone", "read", "drop", "get_mut"], 2, 3, 2, False)])] + swaps("C15", tier, seed, hows=("uninit",))
     return [uninit("C15", tier, "uninit_t", 3, 2, 3), uninit("C15", tier, "uninit_t4", 4, 2, 2),
             uninit("C15", tier, "uninit_walks_t", 5, 4, 5, simulate=(10000, 60, seed)),
-            mm("C15", tier, "mm_deprecated_write_t", [("c15_2x4", ["clone", "read", "drop", "get_mut"], 2, 4, 2, False), ("c15_3x2", ["clone", "read", "drop", "get_mut"], 3, 2, 1, False)])]
+            uninit("C15", tier, "uninit_long_t", 3, 2, 2, scale=9), uninit("C15", tier, "uninit_long17_t", 2, 2, 3, scale=17),
+            uninit("C15", tier, "uninit_long64_t", 2, 1, 2, scale=64),
+            mm("C15", tier, "mm_deprecated_write_t", [("c15_2x4", ["clone", "read", "drop", "get_mut"], 2, 4, 2, False), ("c15_3x2", ["clone", "read", "drop", "get_mut"], 3, 2, 1, False)])] + swaps("C15", tier, seed, hows=("uninit",))
 
 
 def c06(tier, seed):
@@ -170,6 +174,35 @@ def c14(tier, seed):
     return [stage(CM.compare_stage, "C14", tier, "compare_" + tier[0])]
 
 
+SWAP_MODULES = ["Swap.tla", "MC_Swap.tla"]
+SWAP_OPS = ["New", "Clone", "Drop", "CellNew", "LoadFull", "Load", "Upgrade", "Store", "Swap", "Cas", "IntoInner", "CellDrop",
+            "Read", "IsUnique", "GetMut", "ArcWrite", "MakeMut", "TryUnwrap"]
+
+
+def swap(prop, tier, name, nslots, nblocks, ncells, hows=("init", "uninit"), ops=None, simulate=None):
+    """real arc_swap::ArcSwapAny cells over the RefCnt glue (Swap.tla): a cell owns exactly one count"""
+    cfg = "\n".join(["SPECIFICATION MCSpec", "CONSTANTS", "  NSlots = %d" % nslots, "  NBlocks = %d" % nblocks, "  NCells = %d" % ncells,
+                     "  Hows = %s" % S.tla_set(list(hows)), "  KeepHist = TRUE", "  Ops = %s" % S.tla_set(ops or SWAP_OPS),
+                     "VIEW MCView", "INVARIANT Invariants", "PROPERTY ActionsOK", "ACTION_CONSTRAINT Emit", "CHECK_DEADLOCK FALSE", ""])
+    return stage(S.graph_replay, prop, tier, name, "swap", "MC_Swap.tla", SWAP_MODULES, cfg, nslots, simulate=simulate)
+
+
+def swaps(prop, tier, seed, hows=("init", "uninit", "thin")):
+    """the arc-swap family at the tier's bounds: exhaustive small graph per flavour + walks with two cells"""
+    t = tier[0]
+    out = []
+    if tier == "quick":
+        for h in hows:
+            out.append(swap(prop, tier, "swap_%s_%s" % (h, t), 3, 2, 1, hows=(h,)))
+        out.append(swap(prop, tier, "swap_walks_" + t, 6, 4, 2, hows=hows, simulate=(300, 40, seed + 7)))
+    else:
+        for h in hows:
+            out.append(swap(prop, tier, "swap_%s_%s" % (h, t), 4, 2, 1, hows=(h,)))
+        out.append(swap(prop, tier, "swap_mixed_" + t, 3, 2, 2, hows=hows))
+        out.append(swap(prop, tier, "swap_walks_" + t, 8, 5, 3, hows=hows, simulate=(5000, 60, seed + 7)))
+    return out
+
+
 SLICES_MODULES = ["Slices.tla", "MC_Slices.tla"]
 SLICES_OPS = ["New", "Clone", "Drop", "Erase", "Unerase", "IntoRaw", "FromRawSlice", "FromRaw", "Shareable", "Unsize", "Borrow", "TryUnique", "GetMut"]
 
@@ -185,10 +218,10 @@ def c10(tier, seed):
     if tier == "quick":
         return [thin("C10", tier, "thin_q", THIN_OPS, 3, 2, 1, 1), thin_lengths("C10", tier),
                 thin("C10", tier, "thin_walks_q", THIN_OPS, 6, 4, 2, 3, simulate=(1000, 40, seed)),
-                lay("C10", tier, "layout_matrix_q"), inj("C10", tier)]
+                lay("C10", tier, "layout_matrix_q"), inj("C10", tier)] + swaps("C10", tier, seed, hows=("thin",))
     return [thin("C10", tier, "thin_t", THIN_OPS, 4, 2, 2, 2), thin_lengths("C10", tier),
             thin("C10", tier, "thin_walks_t", THIN_OPS, 6, 4, 2, 3, simulate=(20000, 80, seed)),
-            lay("C10", tier, "layout_matrix_t"), inj("C10", tier)]
+            lay("C10", tier, "layout_matrix_t"), inj("C10", tier)] + swaps("C10", tier, seed, hows=("thin",))
 
 
 def c01(tier, seed):
@@ -203,7 +236,7 @@ def c01(tier, seed):
                 mm("C01", tier, "mm_clone_drop_q", [("c01_2x3", ["clone", "read", "drop"], 2, 3, 2, False)]),
                 nested_frames("C01", tier), thin_lengths("C01", tier), inj("C01", tier),
                 # every release path of every shape returns the block once; real ArcSwap traffic keeps counts exact
-                lay("C01", tier, "layout_matrix_q")] + long_walks("C01", tier, seed)
+                lay("C01", tier, "layout_matrix_q")] + swaps("C01", tier, seed) + long_walks("C01", tier, seed)
     return [sized("C01", tier, "sized_life_t", BASE + CONV + BORROW + ["TryUnique"], 4, 2, 2),
             sized("C01", tier, "sized_life_t5", BASE + CONV_CORE + ["Enter", "Exit"], 5, 2, 1, hows=("new", "newB")),
             walks("C01", tier, seed),
@@ -211,7 +244,7 @@ def c01(tier, seed):
             slices("C01", tier, "slices_life_t", 4, 2, 2), slices("C01", tier, "slices_walks_t", 6, 4, 3, simulate=(5000, 60, seed)),
             sized("C01", tier, "sized_life_nostd_t", BASE + CONV + BORROW + UNIQ + COW + UNWRAP, 3, 2, 1, harness_cfg="b"),
             mm("C01", tier, "mm_clone_drop_t", [("c01_2x3", ["clone", "read", "drop"], 2, 3, 2, False), ("c01_3x3", ["clone", "read", "drop"], 3, 3, 1, False)]), inj("C01", tier),
-            lay("C01", tier, "layout_matrix_t")] + long_walks("C01", tier, seed)
+            lay("C01", tier, "layout_matrix_t")] + swaps("C01", tier, seed) + long_walks("C01", tier, seed)
 
 
 def c03(tier, seed):
@@ -220,11 +253,11 @@ def c03(tier, seed):
     if tier == "quick":
         return [sized("C03", tier, "sized_uniq_q", ops, 3, 2, 1),
                 mm("C03", tier, "mm_uniq_q", [("c03_2x3", mops, 2, 3, 2, False), ("c03_3x2", mops, 3, 2, 1, False)]),
-                tr("C03", tier, "threads_q", seed), inj("C03", tier)]
+                tr("C03", tier, "threads_q", seed), inj("C03", tier)] + swaps("C03", tier, seed, hows=("init", "thin"))
     return [sized("C03", tier, "sized_uniq_t", ops + ["Unsize", "IntoRawDyn", "FromRawDyn"], 4, 2, 1),
             mm("C03", tier, "mm_uniq_t", [("c03_2x4", mops, 2, 4, 2, False), ("c03_3x3", mops, 3, 3, 1, False),
                                           ("c03_3x2h", mops, 3, 2, 1, True)]),
-            tr("C03", tier, "threads_t", seed), inj("C03", tier)]
+            tr("C03", tier, "threads_t", seed), inj("C03", tier)] + swaps("C03", tier, seed, hows=("init", "thin"))
 
 
 def c04(tier, seed):
@@ -232,10 +265,10 @@ def c04(tier, seed):
     if tier == "quick":
         return [sized("C04", tier, "sized_count_q", ops, 3, 2, 1), walks("C04", tier, seed),
                 thin("C04", tier, "thin_count_q", THIN_OPS, 3, 2, 1, 1), slices("C04", tier, "slices_count_q", 3, 2, 2),
-                tr("C04", tier, "threads_q", seed), inj("C04", tier), stage(AP.ind_stage, "C04", tier, "apalache_inductive_q")] + long_walks("C04", tier, seed)
+                tr("C04", tier, "threads_q", seed), inj("C04", tier), stage(AP.ind_stage, "C04", tier, "apalache_inductive_q")] + swaps("C04", tier, seed) + long_walks("C04", tier, seed)
     return [sized("C04", tier, "sized_count_t", ops, 4, 2, 2), walks("C04", tier, seed),
             thin("C04", tier, "thin_count_t", THIN_OPS, 4, 2, 2, 2), slices("C04", tier, "slices_count_t", 4, 2, 2),
-            tr("C04", tier, "threads_t", seed), inj("C04", tier), stage(AP.ind_stage, "C04", tier, "apalache_inductive_t")] + long_walks("C04", tier, seed)
+            tr("C04", tier, "threads_t", seed), inj("C04", tier), stage(AP.ind_stage, "C04", tier, "apalache_inductive_t")] + swaps("C04", tier, seed) + long_walks("C04", tier, seed)
 
 
 def c08(tier, seed):
@@ -244,22 +277,22 @@ def c08(tier, seed):
     if tier == "quick":
         return [sized("C08", tier, "sized_cow_q", ops, 3, 3, 1, hows=("new", "newB")),
                 mm("C08", tier, "mm_cow_q", [("c08_2x3", mops, 2, 3, 2, False), ("c08_3x2", mops, 3, 2, 1, False)]),
-                tr("C08", tier, "threads_q", seed), inj("C08", tier)]
+                tr("C08", tier, "threads_q", seed), inj("C08", tier), lay("C08", tier, "layout_matrix_q")] + swaps("C08", tier, seed, hows=("init",))
     return [sized("C08", tier, "sized_cow_t", ops, 4, 3, 1, hows=("new", "newB")),
             mm("C08", tier, "mm_cow_t", [("c08_2x4", mops, 2, 4, 2, False), ("c08_3x3", mops, 3, 3, 1, False)]),
-            tr("C08", tier, "threads_t", seed), inj("C08", tier)]
+            tr("C08", tier, "threads_t", seed), inj("C08", tier), lay("C08", tier, "layout_matrix_t")] + swaps("C08", tier, seed, hows=("init",))
 
 
 def c09(tier, seed):
-    ops = BASE + CONV_CORE + UNWRAP + ["TryUnique", "Borrow", "Enter", "Exit"]
+    ops = BASE + CONV_CORE + UNWRAP + ["TryUnique", "Borrow", "Enter", "Exit", "Unsize", "UnsizeUnq", "ShareableDyn", "IsUnique"]
     mops = ["try_unwrap", "unwrap_or_clone", "drop", "get_mut", "clone"]
     if tier == "quick":
         return [sized("C09", tier, "sized_unwrap_q", ops, 3, 2, 1),
                 mm("C09", tier, "mm_unwrap_q", [("c09_2x3", mops, 2, 3, 2, False), ("c09_3x2", mops, 3, 2, 1, False)]),
-                tr("C09", tier, "threads_q", seed), inj("C09", tier)]
+                tr("C09", tier, "threads_q", seed), inj("C09", tier)] + swaps("C09", tier, seed, hows=("init",))
     return [sized("C09", tier, "sized_unwrap_t", ops, 4, 2, 1),
             mm("C09", tier, "mm_unwrap_t", [("c09_2x4", mops, 2, 4, 2, False), ("c09_3x3", mops, 3, 3, 1, False)]),
-            tr("C09", tier, "threads_t", seed), inj("C09", tier)]
+            tr("C09", tier, "threads_t", seed), inj("C09", tier)] + swaps("C09", tier, seed, hows=("init",))
 
 
 def c12(tier, seed):
@@ -278,6 +311,11 @@ GRAPH_ASSUME = [
     "the canonical VIEW removes slot permutations only (cross-checked against the plain view on the small configuration)",
     "the harness allocator (poison, quarantine) and identity-tracked payloads observe destruction and deallocation faithfully",
     "single-threaded histories; schedules are decided by the ArcMM stages",
+]
+
+SWAP_ASSUME = [
+    "arc-swap family (Swap.tla): ArcSwapAny with arc-swap's default strategy, used from one thread; a Guard may be held as a debt "
+    "or as a count until the cell it came from is overwritten, so a count is compared as the range [handles + cells + paid guards, owners]",
 ]
 
 MM_ASSUME = [
@@ -311,20 +349,20 @@ LAYOUT_ASSUME = [
 
 PROPS = {
     "C05": {"level": "model_checking", "stages": c05, "assumptions": LAYOUT_ASSUME, "replay": any_replay},
-    "C11": {"level": "model_checking", "stages": c11, "assumptions": LAYOUT_ASSUME + GRAPH_ASSUME, "replay": any_replay},
-    "C10": {"level": "model_checking", "stages": c10, "assumptions": GRAPH_ASSUME + LAYOUT_ASSUME + MM_ASSUME, "replay": any_replay},
-    "C15": {"level": "model_checking", "stages": c15, "assumptions": GRAPH_ASSUME + MM_ASSUME, "replay": any_replay},
+    "C11": {"level": "model_checking", "stages": c11, "assumptions": LAYOUT_ASSUME + GRAPH_ASSUME + SWAP_ASSUME, "replay": any_replay},
+    "C10": {"level": "model_checking", "stages": c10, "assumptions": GRAPH_ASSUME + LAYOUT_ASSUME + MM_ASSUME + SWAP_ASSUME, "replay": any_replay},
+    "C15": {"level": "model_checking", "stages": c15, "assumptions": GRAPH_ASSUME + MM_ASSUME + SWAP_ASSUME, "replay": any_replay},
     "C06": {"level": "model_checking", "stages": c06, "assumptions": GRAPH_ASSUME + ["Ctor.tla models each constructor as the sequence of calls, writes and checks the source performs; lengths beyond the fault bound are honest cases only"], "replay": any_replay},
     "C07": {"level": "fault_enumeration", "stages": c07, "assumptions": GRAPH_ASSUME + ["faults: panic at the k-th next / Clone / callback exit / comparison-hash-format impl, misreported len/size_hint within +-2 and changing between calls, failing allocation 1..3 (child processes); a leak is tolerated only where Ctor.tla leaks the half-built block"], "replay": any_replay},
     "C14": {"level": "model_checking", "stages": c14, "assumptions": ["the reference answers (what the values answer) are Compare.tla's ValEq / ValCmp: header, then slice lexicographically, then recorded length; the real value types' own impls are checked against that table, every handle kind against the values", "exhaustive over the small domain only (3 letters, slices up to the bound, recorded length equal or +1)"], "replay": any_replay},
     "C16": {"level": "model_checking", "stages": c16, "assumptions": ["the 4-bit count word is a scale model of the 64-bit one: the guard compares with half the range, which is parametric in the width", "start counts are preset through the tracer's knowledge of the count's address; each clone runs in its own child process", "concurrent increments racing past the limit are not modelled (the guard's slack of isize::MAX increments is the crate's documented assumption)"], "replay": any_replay},
     "C17": {"level": "model_checking", "stages": c17, "assumptions": ["SerCalls(value, k) is uninterpreted: the trace supplies the call log of the value and of the handle and Serde.tla requires them equal", "payload family: u64, String, tuple, Vec, Option, hand-written nested structs; recording serializer and token deserializer of the harness", "serde feature only (default configuration)"], "replay": any_replay},
     "C02": {"level": "model_checking", "stages": c02, "assumptions": MM_ASSUME, "replay": any_replay},
-    "C01": {"level": "model_checking", "stages": c01, "assumptions": GRAPH_ASSUME + MM_ASSUME + LAYOUT_ASSUME, "replay": any_replay},
-    "C03": {"level": "model_checking", "stages": c03, "assumptions": GRAPH_ASSUME + MM_ASSUME, "replay": any_replay},
-    "C04": {"level": "model_checking", "stages": c04, "assumptions": GRAPH_ASSUME, "replay": any_replay},
-    "C08": {"level": "model_checking", "stages": c08, "assumptions": GRAPH_ASSUME + MM_ASSUME, "replay": any_replay},
-    "C09": {"level": "model_checking", "stages": c09, "assumptions": GRAPH_ASSUME + MM_ASSUME, "replay": any_replay},
+    "C01": {"level": "model_checking", "stages": c01, "assumptions": GRAPH_ASSUME + MM_ASSUME + LAYOUT_ASSUME + SWAP_ASSUME, "replay": any_replay},
+    "C03": {"level": "model_checking", "stages": c03, "assumptions": GRAPH_ASSUME + MM_ASSUME + SWAP_ASSUME, "replay": any_replay},
+    "C04": {"level": "model_checking", "stages": c04, "assumptions": GRAPH_ASSUME + SWAP_ASSUME, "replay": any_replay},
+    "C08": {"level": "model_checking", "stages": c08, "assumptions": GRAPH_ASSUME + MM_ASSUME + SWAP_ASSUME, "replay": any_replay},
+    "C09": {"level": "model_checking", "stages": c09, "assumptions": GRAPH_ASSUME + MM_ASSUME + SWAP_ASSUME, "replay": any_replay},
     "C12": {"level": "model_checking", "stages": c12, "assumptions": GRAPH_ASSUME + LAYOUT_ASSUME + MM_ASSUME, "replay": any_replay},
 }
 
